@@ -244,12 +244,6 @@ func scenario(c construct, n, w int) vs.Scenario {
 			if !r.done {
 				return "deadlock/" + e.Status.String() + "/" + e.LibSites(), fmt.Sprintf("delivered %v of %v; stuck: %+v", r.out, in, e.Stuck)
 			}
-			if rc := e.LibRace(); rc != nil {
-				// two library goroutines of the stage touch the same memory without
-				// ordering: items can be overwritten between being produced and being
-				// handed on (and the SC exploration below would not be exhaustive)
-				return "data-race-on-item-path/" + rc.Signature, fmt.Sprintf("%s n=%d w=%d: %s <-> %s", c.name, n, w, rc.A, rc.B)
-			}
 			got := append([]int(nil), r.out...)
 			if !r.ordered {
 				sort.Ints(got)
@@ -286,14 +280,14 @@ func build(tier string) ([]runner.Instance, time.Duration) {
 			// inputs longer than buffer + workers (+1 taken by the consumer), smaller bound
 			for w := 1; w <= maxW; w++ {
 				for n := 2*w + 1; n <= 2*w+2; n++ {
-					out = append(out, runner.Instance{Group: c.name, Name: fmt.Sprintf("%s/n=%d,w=%d", c.name, n, w), Bound: bound - 1, Race: true, Scenario: scenario(c, n, w)})
+					out = append(out, runner.Instance{Group: c.name, Name: fmt.Sprintf("%s/n=%d,w=%d", c.name, n, w), Bound: bound - 1, Scenario: scenario(c, n, w)})
 				}
 			}
 			continue
 		}
 		for n := 0; n <= maxN; n++ {
 			for w := 1; w <= maxW; w++ {
-				out = append(out, runner.Instance{Group: c.name, Name: fmt.Sprintf("%s/n=%d,w=%d", c.name, n, w), Bound: bound, Race: true, Scenario: scenario(c, n, w)})
+				out = append(out, runner.Instance{Group: c.name, Name: fmt.Sprintf("%s/n=%d,w=%d", c.name, n, w), Bound: bound, Scenario: scenario(c, n, w)})
 			}
 		}
 	}
@@ -301,6 +295,6 @@ func build(tier string) ([]runner.Instance, time.Duration) {
 }
 
 func main() {
-	runner.Main(runner.Options{Property: "C01", Level: "exploration", Build: build,
+	runner.Main(runner.Options{Property: "C01", Level: "exploration", Build: build, RacePoints: true,
 		Assume: []string{"model of sync/context/channels in verif/vs (DESIGN §2.2)", "small scope: <=3 items, <=3 workers / outputs / sources", "runtime.NumCPU seam = 2"}})
 }
